@@ -17,7 +17,9 @@
      6  NOT IN (subquery) executed as a plain anti join (NULLs ignored)
      7  semi / anti join whose condition has a column = column conjunct: only those key pairs
         are used (the rest of the condition is dropped; keys that do not pair an outer with an
-        inner column are ignored; a bare column name resolves to the outer table first)
+        inner column are ignored; a bare column name resolves to the outer table first); or a
+        nested-loop condition in which a bare column of the outer expression (x IN ..) resolves
+        to the subquery's table (CompiledPredicate: the inner table's names win)
      8  a subquery nested in the WHERE of a decorrelated subquery (EXISTS / IN read TRUE, a scalar
         subquery is missing)
      9  EXISTS / IN (subquery) that is not decorrelated (under OR / NOT / IS NULL, or over a
@@ -28,7 +30,7 @@
     12  a scalar subquery with more than one row: the first row is used, no error
     13  FROM (subquery) whose levels or whose outer WHERE contain subqueries *)
 From Coq Require Import ZArith List Bool Arith.
-From TV Require Import Model.SqlSpec Model.SubqSpec Model.SubqImpl.
+From TV Require Import Model.SqlSpec Model.SubqSpec Model.SubqImpl Model.SubqWf.
 Import ListNotations.
 Open Scope Z_scope.
 
@@ -143,7 +145,7 @@ Section Db.
               | None => 0
               | Some c =>
                   match equi_keys c with
-                  | [] => if has_sub c then 8 else 0
+                  | [] => if has_sub c then 8 else if negb (bare_ok [rw; lw] c) then 7 else 0
                   | _ => if pure_keys lw rw c then 0 else 7
                   end
               end
